@@ -77,7 +77,7 @@ Fixpoint fill (t : list (N * oper)) (free : nat) (q : list (N * N)) {struct q} :
 Fixpoint mark_inprogress (started : list (N * N)) (t : list (N * oper)) : list (N * oper) :=
   match t with
   | [] => []
-  | (c, o) :: r => (c, if existsb (fun e => N.eqb (fst e) (oid o)) started then set_phase PInProgress o else o)
+  | (c, o) :: r => (c, if existsb (fun e => N.eqb (fst e) (oid o) && N.eqb (snd e) c) started then set_phase PInProgress o else o)
                    :: mark_inprogress started r
   end.
 
@@ -97,7 +97,7 @@ Definition track_new (s : st) (p : tpin) (typ : otype) (ph : phase) : option (st
   | Some o0 =>
       if otype_eqb (otyp o0) typ && live (oph o0) then None
       else (* op.Cancel(): an in-flight call of the replaced operation returns at once *)
-        Some (fresh (set_calls s (filter (fun cl => negb (N.eqb (coid cl) (oid o0))) (calls s))))
+        Some (fresh (set_calls s (filter (fun cl => negb (N.eqb (coid cl) (oid o0) && N.eqb (ccid cl) c)) (calls s))))
   | None => Some (fresh s)
   end.
 
@@ -160,7 +160,7 @@ Definition complete (s : st) (c : N) (fault : bool) : st :=
                            else match ckd cl with
                                 | KPin => conn_pin (ipfs s) c (pdirect (opin o))
                                 | _ => (adel c (ipfs s), true) end in
-          let s1 := set_calls (set_ipfs s i') (filter (fun x => negb (N.eqb (coid x) (coid cl))) (calls s)) in
+          let s1 := set_calls (set_ipfs s i') (filter (fun x => negb (N.eqb (coid x) (coid cl) && N.eqb (ccid x) c)) (calls s)) in
           dispatch (if ok then clean s1 (coid cl) c else set_err_phase s1 c)
       end
   end.
